@@ -23,6 +23,16 @@ def run(tier):
         tc.replay(chk, PID, res, {"nq": 2, "what": ["state"], "seed": chk.seed, "two_qubit": tq}, (0.2 if th else 0.5) if tq == "ps" else (0.05 if th else 0.12), MINE,
                   "2 qubits (%s two-qubit gates)" % tq)
     tlc.cleanup(PID + "_nq2_g%d" % (3 if th else 2))
+    # directed scope: odd-parity Bell states (rank-one density matrices whose fidelity computation is numerically delicate)
+    wd, res, _ = tc.model(chk, PID, 2, 3, tc.BELL, ["StateTomoCorrect"], tag="_bell")
+    tc.replay(chk, PID, res, {"nq": 2, "what": ["state"], "seed": chk.seed, "two_qubit": "ps"}, 1.0, MINE, "2 qubits, Bell-state scope")
+    tlc.cleanup(PID + "_nq2_g3_bell")
+    from ..adapters import tomo as ta
+    from ..common import guard
+    chk.count(key="bell-regression")
+    for clause, detail in ta.bell_regression():
+        chk.violation(clause, detail, script={"directed": "odd-parity Bell states, H/X/CNOT, Analyzer frequencies"}, sig={"clause": clause, "case": "odd-parity Bell state"})
+    chk.add_phase("directed history (F24)", cases=2)
     chk.assumptions = ["TLC 1.8 + CommunityModules", "noiseless frequencies come from the harness's own permanent on the requested circuit's U_full",
                        "the logical unitary of the lightworks gates is the named one (C13)"]
     return chk.finish()
